@@ -32,6 +32,7 @@ FactOK(e) ==
     [] e.k = "f"   -> FPFactOK(e)
     [] e.k = "m"   -> MaskFactOK(e)
     [] e.k = "v"   -> MemFactOK(e, MemMode)
+    [] e.k = "p"   -> PrefetchFactOK(e)
     [] OTHER       -> IntFactOK(e)
 
 Init == l = 1 /\ nrej = 0
